@@ -165,7 +165,7 @@ pub mod parser {
 //@ # C10: the stored configuration is the request's (endpoint trimmed, attributes, oidc token)
 //@ ensures[C10] r.is_ok() ==> push_config_ok(*push_config_proto, r.unwrap())
 //@ closure 1 ret tok: PushConfigOidcToken
-//@ closure 1 ensures (match method { AuthenticationMethod::OidcToken(t) => tok.audience@ == t.audience@ && tok.service_account_email@ == t.service_account_email@ })
+//@ closure 1 ensures (match $1 { AuthenticationMethod::OidcToken(t) => tok.audience@ == t.audience@ && tok.service_account_email@ == t.service_account_email@ })
 //@ proof-before /^\s*Ok\(PushConfig::new\(endpoint, oidc_token, attributes\)\)/ { assert(oidc_token.is_some() == push_config_proto.authentication_method.is_some()); assert(endpoint@ == trim_ws(push_config_proto.push_endpoint@)); assert((match attributes { Some(a) => a@, None => Map::empty() }) == push_config_proto.attributes@); }
 //@ proof-before /let attributes = match/ { if push_config_proto.attributes@.len() == 0 { push_config_proto.attributes@.dom().lemma_len0_is_empty(); assert(push_config_proto.attributes@ =~= Map::empty()); } }
 //@end
@@ -207,13 +207,13 @@ pub mod subscriber {
 //@ # ... and the push configuration it was created with
 //@ ensures[C10] (match info.push_config { None => r.push_config.is_none(), Some(c) => r.push_config.is_some() && resource_push_ok(c, r.push_config.unwrap()) })
 //@ closure 1 ret s: String
-//@ closure 1 ensures s@ == display_topic(t.name)
+//@ closure 1 ensures s@ == display_topic($1.name)
 //@ closure 2 ret s: String
 //@ closure 2 ensures deleted_sentinel(s@)
 //@ closure 3 ret p: PushConfig
-//@ closure 3 ensures resource_push_ok(*config, p)
+//@ closure 3 ensures resource_push_ok(*$1, p)
 //@ closure 4 ret m: AuthenticationMethod
-//@ closure 4 ensures (match m { AuthenticationMethod::OidcToken(o) => o.audience@ == token.audience@ && o.service_account_email@ == token.service_account_email@ })
+//@ closure 4 ensures (match m { AuthenticationMethod::OidcToken(o) => o.audience@ == $1.audience@ && o.service_account_email@ == $1.service_account_email@ })
 //@end
 }
 
